@@ -53,10 +53,14 @@ type runDesc struct {
 	GOGC       string `json:"gogc"`
 	Race       bool   `json:"race_build"`
 	Parallel   bool   `json:"parallel_engine,omitempty"`
+	// Repeat: the observed run is the second execution of the program inside
+	// one process (as the shipped determinism tests do it): process-global state
+	// (process ids, id generator, caches) differs from a fresh process.
+	Repeat bool `json:"second_run_in_same_process,omitempty"`
 }
 
 func (r runDesc) hostKey() string {
-	return fmt.Sprintf("P%d|cpus=%s|gogc=%s|race=%v|fam=%s|delays=%v|par=%v", r.GOMAXPROCS, r.CPUs, r.GOGC, r.Race, r.Family, r.Delays, r.Parallel)
+	return fmt.Sprintf("P%d|cpus=%s|gogc=%s|race=%v|fam=%s|delays=%v|par=%v|repeat=%v", r.GOMAXPROCS, r.CPUs, r.GOGC, r.Race, r.Family, r.Delays, r.Parallel, r.Repeat)
 }
 
 type childJob struct {
@@ -77,6 +81,7 @@ type bufRec struct {
 type childResult struct {
 	Buffers       []bufRec         `json:"buffers"`
 	BufDigest     string           `json:"buf_digest"`
+	BufDigestNoPID string          `json:"buf_digest_without_pid"`
 	BufBytes      uint64           `json:"buf_bytes"`
 	TimeRunBits   uint64           `json:"time_after_program_bits"` // Engine.CurrentTime() when the program's last command returned
 	TimeDumpBits  uint64           `json:"time_after_dump_bits"`    // ... after the read-back copies
@@ -297,6 +302,7 @@ func (w *wrapper) Run() {
 	w.inner.Run()
 	w.res.TimeRunBits = math.Float64bits(float64(w.eng.CurrentTime()))
 	h := sha256.New()
+	h2 := sha256.New()
 	for ci, ctx := range w.d.VerifContexts() {
 		for _, b := range ctx.VerifBuffers() {
 			if b.Freed || b.Size == 0 {
@@ -307,10 +313,12 @@ func (w *wrapper) Run() {
 			s := sha256.Sum256(data)
 			w.res.Buffers = append(w.res.Buffers, bufRec{Ctx: ci, PID: uint64(b.PID), Ptr: uint64(b.Ptr), Size: b.Size, SHA: hex.EncodeToString(s[:])})
 			fmt.Fprintf(h, "%d|%d|%d|%d|%x\n", ci, b.PID, b.Ptr, b.Size, s)
+			fmt.Fprintf(h2, "%d|%d|%d|%x\n", ci, b.Ptr, b.Size, s)
 			w.res.BufBytes += b.Size
 		}
 	}
 	w.res.BufDigest = hex.EncodeToString(h.Sum(nil))
+	w.res.BufDigestNoPID = hex.EncodeToString(h2.Sum(nil))
 	w.res.TimeDumpBits = math.Float64bits(float64(w.eng.CurrentTime()))
 }
 
@@ -362,15 +370,36 @@ func childMain() {
 	if err := json.Unmarshal(raw, &job); err != nil {
 		panic(err)
 	}
+	sim.GetIDGenerator() // lazily initialised without synchronisation
+	setFlags(job.Case, job.Run)
+	rec.Note("started", true)
+	passes := 1
+	if job.Run.Repeat {
+		passes = 2
+	}
+	var res *childResult
+	for pass := 0; pass < passes; pass++ {
+		res = runOnce(job, pass)
+		if pass+1 < passes {
+			rec.Note("first_pass", res)
+		}
+	}
+	rec.Note("result", res)
+	rec.Note("done", true)
+	os.Exit(0)
+}
+
+// runOnce builds a platform, runs the program on it through runner.Runner and
+// returns the child's part of the observable record.
+func runOnce(job childJob, pass int) *childResult {
 	c, r := job.Case, job.Run
+	before, _ := filepathGlob("akita_sim_*.sqlite3")
 
 	rand.Seed(c.RandSeed) // benchmark inputs come from the global math/rand (randseednop=0)
-	sim.GetIDGenerator()  // lazily initialised without synchronisation
 
-	mon := &monitor{family: r.Family, delays: r.Delays, rng: vlib.NewPRNG(r.DelaySeed).Fork("c05-delays"), sched: 1469598103934665603}
+	mon := &monitor{family: r.Family, delays: r.Delays, rng: vlib.NewPRNG(r.DelaySeed).ForkN("c05-delays", pass), sched: 1469598103934665603}
 	driver.VerifSetYieldHook(mon.hook)
 
-	setFlags(c, r)
 	rn := new(runner.Runner).Init()
 	d := rn.Driver()
 	mon.drv.Store(d)
@@ -382,7 +411,6 @@ func childMain() {
 	inner := makeWorkload(c, rn)
 	w := &wrapper{inner: inner, d: d, eng: rn.Engine(), res: res}
 	rn.AddBenchmark(w)
-	rec.Note("started", true)
 
 	rn.Run()
 
@@ -403,10 +431,15 @@ func childMain() {
 	res.Goscheds = mon.goscheds.Load()
 	res.EngineStalls = mon.stalls.Load()
 	res.NotifyInEvent = mon.notifyInEvt.Load()
-	if files, _ := filepathGlob("akita_sim_*.sqlite3"); len(files) == 1 {
-		res.SQLite = files[0]
+	after, _ := filepathGlob("akita_sim_*.sqlite3")
+	old := map[string]bool{}
+	for _, f := range before {
+		old[f] = true
 	}
-	rec.Note("result", res)
-	rec.Note("done", true)
-	os.Exit(0)
+	for _, f := range after {
+		if !old[f] {
+			res.SQLite = f
+		}
+	}
+	return res
 }
